@@ -47,7 +47,11 @@ type Seg struct {
 	Name string `json:"name,omitempty"` // constant name of a literal
 	Src  string `json:"src"`
 	Why  string `json:"why,omitempty"`
-	pidx int    // 1 + index of the enclosing function's parameter this field is (a conversion of); 0 = none
+	// Derived is set when the field is not one value written raw: a variable assigned in several different ways
+	// (e.g. `id := x; if len(id) > 32 { id = hash(x)[:] }`) or a sub-slice with bounds (truncation). Such a field
+	// maps different logical parameters to the same bytes, which the shape theory (field bytes) cannot see.
+	Derived string `json:"derived,omitempty"`
+	pidx    int    // 1 + index of the enclosing function's parameter this field is (a conversion of); 0 = none
 }
 
 func (s Seg) key() string {
@@ -93,6 +97,9 @@ type Annotations struct {
 	UnresolvedOK []struct {
 		File, Func, Reason string
 	} `json:"unresolved_ok"`
+	DerivedOK []struct {
+		File, Func, Reason string
+	} `json:"derived_ok"`
 }
 
 type an struct {
@@ -402,6 +409,9 @@ func (a *an) classify(pi *pkgInfo, fn *ast.FuncDecl, e ast.Expr, depth int) Seg 
 				return s
 			}
 		}
+		if x.Low != nil || x.High != nil {
+			v.Derived = "sub-slice with bounds (truncation): " + src
+		}
 		return v
 	case *ast.Ident:
 		obj := pi.Info.Uses[x]
@@ -425,9 +435,14 @@ func (a *an) classify(pi *pkgInfo, fn *ast.FuncDecl, e ast.Expr, depth int) Seg 
 		}
 		first := a.classify(pi, fn, rhs[0], depth+1)
 		for _, r := range rhs[1:] {
-			if o := a.classify(pi, fn, r, depth+1); o.key() != first.key() {
+			o := a.classify(pi, fn, r, depth+1)
+			if o.key() != first.key() || (o.Kind != "lit" && a.src(r) != a.src(rhs[0])) {
 				v.Why = "local variable assigned expressions of different shapes"
+				v.Derived = fmt.Sprintf("variable %s is assigned in several ways: `%s` and `%s`", x.Name, a.src(rhs[0]), a.src(r))
 				return v
+			}
+			if o.Derived != "" {
+				first.Derived = o.Derived
 			}
 		}
 		first.Src = src
@@ -634,6 +649,7 @@ type Output struct {
 	StoragePrefix  string        `json:"storage_prefix"`
 	CachePutPrefix []string      `json:"cachedb_put_prefixes"`
 	Annotations    []*Annotation `json:"annotations_used"`
+	Ambiguous      []Unresolved  `json:"ambiguous_fields"`
 	Notes          []string      `json:"notes"`
 	NSites         int           `json:"n_sites"`
 	NSinkCalls     int           `json:"n_store_calls"`
@@ -1143,6 +1159,22 @@ func main() {
 			Shapes []Shape `json:"shapes"`
 		}{c, addrs[c], shapes})
 	}
+	for _, st := range out.Sites {
+		for _, g := range st.Segs {
+			if g.Derived == "" {
+				continue
+			}
+			okd := false
+			for _, w := range a.ann.DerivedOK {
+				if w.File == st.File && w.Func == st.Func {
+					okd = true
+				}
+			}
+			if !okd {
+				out.Ambiguous = append(out.Ambiguous, Unresolved{Pos: st.Pos, Func: st.Func, Call: st.Src, Why: g.Derived})
+			}
+		}
+	}
 	out.NSites = len(out.Sites)
 	for _, w := range a.ann.Widths {
 		if w.used {
@@ -1266,6 +1298,15 @@ func printLean(o *Output) {
 	fmt.Println("def unresolvedKeySites : List String := [")
 	rows = nil
 	for _, u := range o.Unresolved {
+		rows = append(rows, "  "+leanStr(u.Pos+" "+u.Func+": "+u.Why))
+	}
+	fmt.Println(strings.Join(rows, ",\n"))
+	fmt.Println("]")
+	fmt.Println()
+	fmt.Println("/-- key fields that are not one value written raw (a variable assigned in several ways, a truncation): must be empty -/")
+	fmt.Println("def ambiguousFields : List String := [")
+	rows = nil
+	for _, u := range o.Ambiguous {
 		rows = append(rows, "  "+leanStr(u.Pos+" "+u.Func+": "+u.Why))
 	}
 	fmt.Println(strings.Join(rows, ",\n"))
